@@ -1,4 +1,4 @@
-(** Wire entry points of property C11 (stub: replaced when the model is built). *)
+(** Wire entry points of property C11: parsing state chain + reader script. *)
 From Coq Require Import ZArith List.
-From PLV Require Import Base.Wire.
-Definition entry (sub : Z) (inp : list Z) : list Z := bad_input.
+From PLV Require Import Base.Wire Tok.TokWire.
+Definition entry (sub : Z) (inp : list Z) : list Z := entry_tok inp.
